@@ -89,3 +89,10 @@ Print Assumptions C09_congr_equiv_partial_correct.
 Print Assumptions C09_congr_refines.
 Print Assumptions C09_congr_closure_sound.
 Print Assumptions C09_shared_table_sufficient.
+Print Assumptions C09_model_is_decider.
+Print Assumptions C09_memo_sound_init.
+Print Assumptions C09_memo_sound_step.
+Print Assumptions C09_ac_erase.
+Print Assumptions C09_ac_partial.
+Print Assumptions C09_sanitize_lang.
+Print Assumptions C09_congr_operands_refuted.
